@@ -23,6 +23,9 @@ def run(ctx):
                       "pattern is wider)")
     ctx.rule("R10-7", "an unset name expands to nothing: remove_env removes the name from the process environment AND the "
                       "shell map on every successful path (both are read by expand_one_env; the analysis of C09 R09-4)")
+    ctx.rule("R10-8", "the value is inserted as text, not as a regex replacement template: nothing read from the environment "
+                      "or the shell variables reaches the template argument of Regex::replace* / Captures::expand in the "
+                      "expansion pass unescaped (`$1`, `${2}`, a trailing `$` in a value would be interpreted)")
     ctx.rule("R10-3", "$? formats previous_status, $$ formats getpid()")
     for crate in ctx.crates:
         b = crate.fn("shell::expand_env")
@@ -35,6 +38,7 @@ def run(ctx):
         rescan_rule(ctx, crate, b, scanners)
         fixpoint_rule(ctx, crate, b, scanners)
         gate_rule(ctx, crate, b)
+        template_rule(ctx, crate)
         re_ = crate.fn("shell::Shell::remove_env")
         if ctx.require(re_ is not None, "R10-7", "R10-7|anchor", "Shell::remove_env not found"):
             from .c09 import unset_everywhere
@@ -115,3 +119,23 @@ def gate_rule(ctx, crate, b):
                key="R10-6|%s|ungated-rewrite#%d" % (b.path, k), where=b.loc(bb), crate=crate.kind,
                detail=None if ok else "the rewriter's pattern also matches `$1`, `${1}` and references the gate excludes on "
                "purpose: applied to ungated text (e.g. a value just substituted) it deletes or expands them")
+
+
+def template_rule(ctx, crate):
+    from .. import flow
+    sp = taint.source_pred(crate, taint.is_env_read)
+    n = 0
+    for p in ("shell::expand_env", "shell::expand_one_env"):
+        b = crate.fn(p)
+        if b is None:
+            continue
+        for bb, arg, desc in taint.template_sinks(b):
+            hit = flow.backward(b, arg, sp, stop=taint.is_dollar_escape)
+            ctx.ob("R10-8", p, "no variable value reaches the %s unescaped" % desc, hit is None,
+                   key="R10-8|%s|template#%d" % (p, n), where=b.loc(bb), crate=crate.kind,
+                   detail=None if hit is None else "a value such as `cost$1` or `^a.*b$` is interpreted as a template: capture "
+                   "references in it are substituted and text is lost")
+            n += 1
+    if n == 0:
+        ctx.ob("R10-8", "shell::expand_one_env", "the expansion pass uses no replacement template", True, crate=crate.kind,
+               nontrivial=False)
